@@ -1,5 +1,5 @@
 # What each claimed check asserts about itself (copied into MANIFEST.json by gen_manifest.py).
-HOOK_COMMITS = ["60bdaa0", "64099f4"]
+HOOK_COMMITS = ["60bdaa0", "64099f4", "7349612"]
 NOT_APPLICABLE = {}
 CLAIMS = {
     "C20": {
@@ -335,3 +335,9 @@ CLAIMS["C08"]["text"] += (" Keys are generated over their size/curve classes: EC
     "Every supported class must round-trip, sign/verify and seal envelopes that all receivers accept (TestKeySizesAndCurves; the same classes flow through the round-trip, sign/verify, mutation, envelope and peerstore tests, label class:*).")
 CLAIMS["C08"]["note"] += (" 8191-8193-bit RSA keys are fixed fixtures (openssl primes assembled with math/big); the library's own 8192-bit generation is not run, its size check is probed with a failing reader; RSA sizes strictly between 2049 and 8191 are not sampled; "
     "out-of-bounds keys may be refused and those wrapped by KeyPairFromStdKey are not judged.")
+
+CLAIMS["C09"]["text"] += (" The per-peer cap property also consumes signed records (seq 1-4, address order preserved in the envelope) between the plain operations: acceptance must follow the seq rule, superseded unconnected addresses go, the record's addresses enter under the eviction rule, "
+    "and both books must keep returning the last accepted record for as long as the peer has had a live address ever since, also when the cap evicts the peer's only entry to make room (labels signed-record-under-cap, record-kept-across-eviction).")
+CLAIMS["C03"]["text"] += (" Memory limits include finite values whose product with (1+priority) overflows int64 (MaxInt64-1, MaxInt64-255, 2^62+77, 2^56+129, 2^55+1) and a quarter of the reservations are sized at the model's admission threshold "
+    "(largest admitted size found by bisection on the big-integer model, then -1/0/+1; label reserve:at-threshold).")
+CLAIMS["C03"]["note"] += (" No scope is driven past MaxInt64 bytes in total (the roots' headroom bounds every generated size): what the manager does when an unlimited scope's counter would wrap is not part of the statement.")
